@@ -198,6 +198,9 @@ func (h *Handler) HandleMessage(msg stanza.Message, t xmlstream.TokenReadEncoder
 			}
 
 			verifhook.Yield("receipts.notify", id)
+			// The channel is buffered and only ever sent on once (the entry has
+			// just been removed from the map) so this never blocks the stream,
+			// even if the sender has stopped waiting in the meantime.
 			c <- struct{}{}
 			return nil
 		case "request":
@@ -252,18 +255,15 @@ func (h *Handler) SendMessage(ctx context.Context, s *xmpp.Session, r xml.TokenR
 //
 // SendMessageElement is safe for concurrent use by multiple goroutines.
 func (h *Handler) SendMessageElement(ctx context.Context, s *xmpp.Session, payload xml.TokenReader, msg stanza.Message) error {
-	if h.sent == nil {
-		h.m.Lock()
-		h.sent = make(map[string]chan struct{})
-		h.m.Unlock()
-	}
-
 	if msg.ID == "" {
 		msg.ID = attr.RandomID()
 	}
 
-	c := make(chan struct{})
+	c := make(chan struct{}, 1)
 	h.m.Lock()
+	if h.sent == nil {
+		h.sent = make(map[string]chan struct{})
+	}
 	h.sent[msg.ID] = c
 	h.m.Unlock()
 
@@ -284,7 +284,6 @@ func (h *Handler) SendMessageElement(ctx context.Context, s *xmpp.Session, paylo
 		h.m.Lock()
 		delete(h.sent, msg.ID)
 		h.m.Unlock()
-		close(c)
 		return ctx.Err()
 	}
 }
